@@ -36,6 +36,7 @@ class Scheduler:
         self.pkg_dir = pkg_dir
         self.trace_log = None      # optional: list of (tid, lineno, filename) for the solo trace
         self.lock_owner = None
+        self.owners = {}
         self.failed = None
         self.last_kind = {}
         self.mark_self = None      # marks count only for this object's frames (sub-templates run the same lines)
@@ -117,19 +118,23 @@ class Scheduler:
                 self._advance()
 
     # ---- the cook lock
-    def lock_acquire(self, tid):
+    # `key`: which lock ('cook' = DT_String.COOKLOCK, the one the model knows; any other = a lock the library created through
+    # the Lock / RLock names of its modules while a scheduled run was going on, e.g. a lock per template)
+    def lock_acquire(self, tid, key='cook'):
         with self.cv:
-            while self.lock_owner is not None and self.lock_owner != tid:
+            while self.owners.get(key) is not None and self.owners.get(key) != tid:
                 self.blocked.add(tid)
                 if self.current == tid:
                     self._advance()
-                self._wait_turn_blocked(tid)
-            self.lock_owner = tid
-            self._note(tid, 'acquire')
+                self._wait_turn_blocked(tid, key)
+            self.owners[key] = tid
+            if key == 'cook':
+                self.lock_owner = tid
+                self._note(tid, 'acquire')
 
-    def _wait_turn_blocked(self, tid):
+    def _wait_turn_blocked(self, tid, key='cook'):
         # wait until the lock is free, then until it is our turn again
-        while self.lock_owner is not None:
+        while self.owners.get(key) is not None:
             if self.failed is not None:
                 raise self.failed
             self.cv.wait(timeout=20)
@@ -139,16 +144,19 @@ class Scheduler:
             self.cv.notify_all()
         self._wait_turn(tid)
 
-    def lock_release(self, tid):
+    def lock_release(self, tid, key='cook'):
         with self.cv:
-            self.lock_owner = None
-            self._note(tid, 'release')
+            self.owners[key] = None
+            if key == 'cook':
+                self.lock_owner = None
+                self._note(tid, 'release')
             self.cv.notify_all()
 
 
 class SchedLock:
-    def __init__(self, sched_ref):
+    def __init__(self, sched_ref, key='cook'):
         self.ref = sched_ref
+        self.key = key
 
     def _tid(self):
         return int(threading.current_thread().name.split('-')[-1])
@@ -156,13 +164,13 @@ class SchedLock:
     def __enter__(self):
         s = self.ref[0]
         if s is not None:
-            s.lock_acquire(self._tid())
+            s.lock_acquire(self._tid(), self.key)
         return self
 
     def __exit__(self, *a):
         s = self.ref[0]
         if s is not None:
-            s.lock_release(self._tid())
+            s.lock_release(self._tid(), self.key)
         return False
 
     def acquire(self, *a, **k):
@@ -184,6 +192,20 @@ def run_threads(bodies, script, marks, pkg_dir, want_trace=False, mark_self=None
     ref = [sched]
     old_lock = DTS.COOKLOCK
     DTS.COOKLOCK = SchedLock(ref)
+    # locks the library creates itself during the run (through the Lock / RLock names of its own modules) must be known to
+    # the scheduler too: a thread parked by the scheduler while it holds a real lock would block the others for good
+    counter = [0]
+
+    def new_lock(*a, **k):
+        counter[0] += 1
+        return SchedLock(ref, 'lock-%d' % counter[0])
+    patched = []
+    for mname, mod in list(sys.modules.items()):
+        if mod is not None and (mname.startswith('DocumentTemplate') or mname.startswith('TreeDisplay')):
+            for gname, val in list(vars(mod).items()):
+                if val is threading.Lock or val is threading.RLock:
+                    patched.append((mod, gname, val))
+                    setattr(mod, gname, new_lock)
     results = [None] * len(bodies)
 
     def make(tid, body):
@@ -226,6 +248,8 @@ def run_threads(bodies, script, marks, pkg_dir, want_trace=False, mark_self=None
             t.join(timeout=60)
     finally:
         DTS.COOKLOCK = old_lock
+        for mod, gname, val in patched:
+            setattr(mod, gname, val)
         ref[0] = None
     if any(t.is_alive() for t in threads):
         with sched.cv:
